@@ -223,7 +223,7 @@ impl<'a> StylesheetParser<'a> for SassParser<'a> {
 
                 // Skip the initial characters because we're already writing the
                 // slashes.
-                for _ in comment_prefix.len()..(self.current_indentation - parent_indentation) {
+                for _ in comment_prefix.len()..self.current_indentation.saturating_sub(parent_indentation) {
                     buffer.push(' ');
                 }
 
@@ -293,7 +293,7 @@ impl<'a> StylesheetParser<'a> for SassParser<'a> {
 
             first = false;
 
-            for _ in 3..(self.current_indentation - parent_indentation) {
+            for _ in 3..self.current_indentation.saturating_sub(parent_indentation) {
                 buffer.add_char(' ');
             }
 
